@@ -23,7 +23,9 @@ CASES = [
     ("y(i) = A(i,j) * x(j)", {"y": "s", "A": "ss", "x": "s"}),
     ("y(j) = A(i,j) * x(i)", {"y": "d", "A": "d1s0", "x": "d"}),
     ("a(i) = b(i) + c(i)", {"a": "s", "b": "s", "c": "d"}),
-    ("A(i,j) = B(i,j) + B(j,i)", {"A": "dd", "B": "ds"}),
+    ("A(i,j) = B(i,j) + B(j,i)", {"A": "dd", "B": "dd"}),
+    ("C(i,k) = A(i,j) * A(j,k)", {"C": "dd", "A": "dd"}),
+    ("C(i,k) = A(i,j) * A(j,k)", {"C": "dd", "A": "ds"}),
     ("a() = b(i) * c(i)", {"a": "", "b": "d", "c": "s"}),
     ("A(i,j) = B(i,k) * C(k,j)", {"A": "dd", "B": "ds", "C": "ds"}),
     ("a(i) = b(i) * b(i)", {"a": "d", "b": "s"}),
@@ -159,12 +161,14 @@ def kind_c(report, tier):
     shown = 0
     samples = []
     backends = [BackendCompiler.llvm] + ([BackendCompiler.cffi] if tier == "thorough" else [])
+    skipped = []
     for assignment, formats in CASES:
         a, inputs = valid_inputs(assignment, formats)
         for backend in backends:
             try:
                 tm = tensor_method(assignment, formats, backend)
             except doc:
+                skipped.append(assignment)
                 continue
             counter.n = 0
             r = tm(**inputs)
@@ -201,6 +205,8 @@ def kind_c(report, tier):
                 if len(samples) < 8:
                     samples.append(dict(assignment=assignment, case=desc))
     report.samples = samples
+    if len(skipped) > 2:
+        report.undecide(f"too many cases of the C10 family have no kernel: {skipped}")
     report.bounded.append(dict(engine="native calls of tensor_method(...)(...) and evaluate(...) with the compiled function pointer wrapped to count entries",
                                bound=f"{len(CASES)} assignments x every single-argument inconsistency (missing/extra/non-Tensor of 6 kinds/order/one mode/every other ordering/one dimension resized to 0,1,3)",
                                evaluations=evals, distinct_nontrivial=nontrivial, rule="non-trivial = the mutated call must be refused"))
